@@ -140,6 +140,24 @@ Theorem c17_field_one_is_volume : forall axes (ws : list (nat -> Z)),
 Proof. exact dg_field_one. Qed.
 Print Assumptions c17_field_one_is_volume.
 
+(** (d') the weights themselves.  Index j of the slice l[start:end] is index start+j of l, so the local
+    weight of a local index is the global weight of its global index; the (doubled) trapezoid weights
+    [dr[0], dr[0]+dr[1], ..., dr[-1]] sum to 2 (x_max - x_min), and against the linear integrand r they give
+    exactly r_max^2 - r_min^2: with f = 1 the radial and velocity factors of every diagnostic are the analytic
+    (rMax^2 - rMin^2)/2 and vMax - vMin (theta and z contribute dq * dz per point: rectangle rule) *)
+Theorem c17_weight_slice : forall l s e j, j < e - s -> dg_zn (dg_slice l s e) j = dg_zn l (s + j).
+Proof. exact dg_slice_nth. Qed.
+Print Assumptions c17_weight_slice.
+
+Theorem c17_trapezoid_weight_sum : forall a b t, dg_lsum (dg_trap2 (a :: b :: t)) = (2 * (last (a :: b :: t) 0 - a))%Z.
+Proof. exact dg_trap2_sum. Qed.
+Print Assumptions c17_trapezoid_weight_sum.
+
+Theorem c17_trapezoid_r_weighted : forall a b t,
+  dg_dot (dg_trap2 (a :: b :: t)) (a :: b :: t) = (last (a :: b :: t) 0 * last (a :: b :: t) 0 - a * a)%Z.
+Proof. exact dg_trap2_dot. Qed.
+Print Assumptions c17_trapezoid_r_weighted.
+
 (** (e) the time slot.  The code computes ti = t // dt and idx = ti % saveStep; on integers
     (floor division) the step number ti of any time in [ti*dt, (ti+1)*dt) lands in slot ti mod saveStep,
     the slot is a valid index, the next step fills the next slot (cyclically), and saveStep consecutive
@@ -174,6 +192,10 @@ Example c17_example_minslice :
     = [None; None; Some (-4)%Z; None; None; Some (-2)%Z]
   /\ dg_slice_fold dg_omin None (dg_full_ranges [(5, 2); (4, 3)]) [None; Some 2] h = Some (-4)%Z
   /\ dg_ndfold dg_omin None (dg_full_ranges [(5, 2); (4, 3)]) h = Some (-6)%Z.
+Proof. vm_compute. repeat split. Qed.
+
+Example c17_example_trap : dg_trap2 [1; 2; 4; 7]%Z = [1; 3; 5; 3]%Z /\ dg_lsum (dg_trap2 [1; 2; 4; 7]%Z) = 12%Z
+  /\ dg_dot (dg_trap2 [1; 2; 4; 7]%Z) [1; 2; 4; 7]%Z = 48%Z /\ dg_slice [10; 11; 12; 13; 14]%Z 1 3 = [11; 12]%Z.
 Proof. vm_compute. repeat split. Qed.
 
 Example c17_example_slots : map (fun t => dg_slot t 2 3) [0; 2; 4; 6; 8; 9]%Z = [0; 1; 2; 0; 1; 1]%Z
